@@ -16,6 +16,13 @@ CHECKS = {
  "C10": dict(engine="simrt+refcodec", cat="exploration", ref="DESIGN.md 5/C10",
    text="Seeded search over RESP value trees, inline commands and keep-alives: tool encoder vs reference printer, tool decoder behind a fragmenting stream with per-element value/leftover/offset checks, and truncation/one-byte corruption compared with a reference parser.",
    tech="deterministic simulation of the input stream (fragmentation, truncation, corruption) + reference RESP printer/parser as oracle"),
+ "C11": dict(engine="refcodec", cat="fault_enumeration", ref="DESIGN.md 5/C11",
+   text="Per generated artefact (RDB file, every DUMP payload the loader emits) every byte position is substituted (3 alternatives quick, all 255 thorough), trailers are truncated and versions raised with a recomputed CRC; every mutant must be rejected; the three CRC-64 implementations are compared with a bitwise reference under arbitrary chunking.",
+   tech="fault enumeration: exhaustive single-byte corruption per artefact with a simulated allocator limit; bitwise CRC-64 reference",
+   note="Trusted base: refcodec CRC-64/RDB writer, the simulated allocator seam (single []byte allocations above 600 MiB abort the simulated process), go1.26.8. Exhaustive over byte positions per artefact, sampled over artefacts."),
+ "C15": dict(engine="refcodec", cat="exploration", ref="DESIGN.md 5/C15",
+   text="Seeded input search: keys with every brace arrangement against the cluster specification implemented bit by bit, all CRC16 copies (unexported ones through scratch-only export shims), and shard slot ranges for the checkpoint key and the key filter. Pure-function property: schedules/faults do not apply to this part.",
+   tech="seeded input generation with shrinking on the tape; specification-text reference (no scheduler involvement: pure function)"),
  "C18": dict(engine="simrt", cat="exploration", ref="DESIGN.md 5/C18",
    text="Seeded search over writer/reader/closer scripts and lock-granularity interleavings of the real backlog ring against an absolute-offset log model (interval semantics for in-flight writes), with lost-wake-up analysis at quiescence.",
    tech="deterministic simulation: tape-driven baton scheduler over instrumented locks/conds + absolute-offset log model"),
